@@ -201,6 +201,14 @@ def run_case(concepts, case, spec):
                 'covers': sum(len(sl.upper(k)) for k in range(sl.n))})
     with core.monitor_code():
         judge_structure(lat, cap, 'quiescent')
+    if hash(gen.table_key(case)) % 4 == 0:      # a second lattice built on the very same context object
+        lat2 = call(concepts.lattices.Lattice, ctx)
+        if lat2 is not RAISED:
+            with core.monitor_code():
+                common.drop_views()
+                judge_structure(common.tie(lat2, ctx), cap, 'second_lattice')
+                common.drop_views()
+            COL.count('second_lattice_on_same_context')
     k = 0
     asked = []
     for sub in gen.subsets_of(ctx.objects, rng, all_below=8, sampled=30):
